@@ -275,10 +275,102 @@ def _ancestors(p, n, stop=None):
         q = p.parent.get(q)
 
 
+def _mask_evalb(a, b):
+    def evalb(e, cls, eq):
+        """cls in digit/letter/other for the MASK char"""
+        if isinstance(e, ast.BoolOp):
+            vs = [evalb(v, cls, eq) for v in e.values]
+            return all(vs) if isinstance(e.op, ast.And) else any(vs)
+        if isinstance(e, ast.UnaryOp) and isinstance(e.op, ast.Not):
+            return not evalb(e.operand, cls, eq)
+        if isinstance(e, ast.Call) and isinstance(e.func, ast.Attribute) and isinstance(e.func.value, ast.Name) and e.func.value.id == a and not e.args:
+            t = e.func.attr
+            if t in ("isdigit", "isdecimal", "isnumeric"):
+                return cls == "digit"
+            if t == "isalpha":
+                return cls == "letter"
+            if t == "isalnum":
+                return cls in ("digit", "letter")
+        if isinstance(e, ast.Compare) and len(e.ops) == 1:
+            l, r = e.left, e.comparators[0]
+            if {src(l), src(r)} == {a, b}:
+                return eq if isinstance(e.ops[0], ast.Eq) else (not eq) if isinstance(e.ops[0], ast.NotEq) else None
+            if isinstance(l, ast.Name) and l.id == a and isinstance(r, ast.Constant) and isinstance(e.ops[0], (ast.Eq, ast.NotEq, ast.In, ast.NotIn)):
+                # comparison with a literal wildcard character (e.g. 'x'): true only for that letter, not for every non-digit
+                val = cls == "letter-x"
+                return val if isinstance(e.ops[0], (ast.Eq, ast.In)) else not val
+        raise Inconclusive("C06.MASK: atom not recognised: " + src(e))
+    return evalb
+
+
+def _mask_literals(ctx, p):
+    masks = [n for n in ast.walk(p.trees["client.py"]) if isinstance(n, ast.Constant) and isinstance(n.value, str) and re.fullmatch(r"[0-9x]{1,4}", n.value)
+             and any(ch.isdigit() for ch in n.value) and not isinstance(p.parent.get(n), ast.Expr)]
+    for n in masks:
+        if len(n.value) != 3:
+            ctx.fail("C06.MASK", n, f"mask literal {n.value!r} is not 3 characters: zip() compares a prefix only", construct=f"mask:{n.value}")
+        else:
+            ctx.ob("C06.MASK", n, f"mask literal {n.value!r} is 3 characters", True)
+    ctx.floor("C06.MASK", 35, "mask literals and table rows")
+
+
+def _mask_loop_form(ctx, p, m, params):
+    """`for m, c in zip(mask, self): <ifs with return False / continue>` followed by `return True`: one iteration is evaluated over (mask char class) x (equal)"""
+    body = [st for st in m.body if not (isinstance(st, ast.Expr) and isinstance(st.value, ast.Constant))]
+    if not (len(body) == 2 and isinstance(body[0], ast.For) and not body[0].orelse and isinstance(body[1], ast.Return) and isinstance(body[1].value, ast.Constant)
+            and body[1].value.value is True):
+        return False
+    loop = body[0]
+    if not (isinstance(loop.target, ast.Tuple) and len(loop.target.elts) == 2 and all(isinstance(e, ast.Name) for e in loop.target.elts)
+            and isinstance(loop.iter, ast.Call) and isinstance(loop.iter.func, ast.Name) and loop.iter.func.id == "zip" and len(loop.iter.args) == 2):
+        return False
+    a, b = [e.id for e in loop.target.elts]
+    pair_src = [src(x) for x in loop.iter.args]
+    ctx.ob("C06.MASK", loop, "the loop pairs (mask char, code char) position by position", pair_src == [params[1], params[0]],
+           f"matches pairs {pair_src}, expected (mask, self)", construct=f"matches:pairing {pair_src}")
+    evalb = _mask_evalb(a, b)
+
+    def run(stmts, cls, eq):
+        for st in stmts:
+            if isinstance(st, ast.If):
+                r = run(st.body if evalb(st.test, cls, eq) else st.orelse, cls, eq)
+                if r != "next":
+                    return r
+            elif isinstance(st, ast.Return) and isinstance(st.value, ast.Constant) and isinstance(st.value.value, bool):
+                return st.value.value
+            elif isinstance(st, ast.Continue):
+                return "continue"
+            elif isinstance(st, ast.Break):
+                return "break"
+            elif isinstance(st, ast.Pass):
+                continue
+            else:
+                raise Inconclusive("C06.MASK: loop statement not recognised: " + src(st)[:60])
+        return "next"
+    for cls in ("digit", "letter", "other"):
+        for eq in (True, False):
+            if cls != "digit" and eq:
+                continue
+            got = run(loop.body, cls, eq)
+            want = "goes on to the next position" if (cls != "digit" or eq) else "returns False"
+            ok = (got in ("next", "continue")) if (cls != "digit" or eq) else got is False
+            what = {"break": "stops comparing (the remaining positions are accepted unseen)", True: "returns True at once (the remaining positions are accepted unseen)",
+                    False: "returns False", "next": "goes on", "continue": "goes on"}[got]
+            ctx.ob("C06.MASK", loop, f"mask char class {cls}, equal={eq}: the iteration {what}", ok,
+                   f"Code.matches: for a {cls} mask character (equal={eq}) the loop {what}; the statement requires that it {want}: any non-digit is a wildcard for its own position only, a digit must agree",
+                   construct=f"matches:loop({cls},{eq})={got}")
+    return True
+
+
 def rule_mask(ctx):
     p = ctx.p
     ctx.rule("C06.MASK", "Code.matches: per-position predicate over (mask char class) x (equal) = wildcard for any non-digit, equality for digits, aggregated with all(); mask literals are 3 chars")
     m = p.method("Code", "matches")
+    params = [x.arg for x in m.args.args]
+    loop_form = _mask_loop_form(ctx, p, m, params)
+    if loop_form:
+        _mask_literals(ctx, p)
+        return
     rets = [n for n in walk_no_nested(m) if isinstance(n, ast.Return)]
     if not rets:
         raise Inconclusive("C06.MASK: Code.matches has no return")
@@ -311,35 +403,10 @@ def rule_mask(ctx):
         raise Inconclusive("C06.MASK: per-position predicate not recognised")
     if negated:
         pred = ast.UnaryOp(op=ast.Not(), operand=pred)
-    params = [x.arg for x in m.args.args]
     ok_pair = pair_src == [params[1], params[0]]
     ctx.ob("C06.MASK", inner, "the predicate pairs (mask char, code char) position by position", ok_pair,
            f"matches pairs {pair_src}, expected (mask, self)", construct=f"matches:pairing {pair_src}")
-
-    def evalb(e, cls, eq):
-        """cls in digit/letter/other for the MASK char"""
-        if isinstance(e, ast.BoolOp):
-            vs = [evalb(v, cls, eq) for v in e.values]
-            return all(vs) if isinstance(e.op, ast.And) else any(vs)
-        if isinstance(e, ast.UnaryOp) and isinstance(e.op, ast.Not):
-            return not evalb(e.operand, cls, eq)
-        if isinstance(e, ast.Call) and isinstance(e.func, ast.Attribute) and isinstance(e.func.value, ast.Name) and e.func.value.id == a and not e.args:
-            t = e.func.attr
-            if t in ("isdigit", "isdecimal", "isnumeric"):
-                return cls == "digit"
-            if t == "isalpha":
-                return cls == "letter"
-            if t == "isalnum":
-                return cls in ("digit", "letter")
-        if isinstance(e, ast.Compare) and len(e.ops) == 1:
-            l, r = e.left, e.comparators[0]
-            if {src(l), src(r)} == {a, b}:
-                return eq if isinstance(e.ops[0], ast.Eq) else (not eq) if isinstance(e.ops[0], ast.NotEq) else None
-            if isinstance(l, ast.Name) and l.id == a and isinstance(r, ast.Constant) and isinstance(e.ops[0], (ast.Eq, ast.NotEq, ast.In, ast.NotIn)):
-                # comparison with a literal wildcard character (e.g. 'x'): true only for that letter, not for every non-digit
-                val = cls == "letter-x"
-                return val if isinstance(e.ops[0], (ast.Eq, ast.In)) else not val
-        raise Inconclusive("C06.MASK: atom not recognised: " + src(e))
+    evalb = _mask_evalb(a, b)
     for cls in ("digit", "letter", "other"):
         for eq in (True, False):
             if cls != "digit" and eq:
@@ -349,14 +416,7 @@ def rule_mask(ctx):
             ctx.ob("C06.MASK", pred, f"mask char class {cls}, equal={eq}: predicate gives {got}", got == want,
                    f"per-position predicate gives {got} for a {cls} mask character (equal={eq}); the statement requires {want}: any non-digit is a wildcard, a digit must agree",
                    construct=f"matches:pred({cls},{eq})={got}")
-    masks = [n for n in ast.walk(p.trees["client.py"]) if isinstance(n, ast.Constant) and isinstance(n.value, str) and re.fullmatch(r"[0-9x]{1,4}", n.value)
-             and any(ch.isdigit() for ch in n.value) and not isinstance(p.parent.get(n), ast.Expr)]
-    for n in masks:
-        if len(n.value) != 3:
-            ctx.fail("C06.MASK", n, f"mask literal {n.value!r} is not 3 characters: zip() compares a prefix only", construct=f"mask:{n.value}")
-        else:
-            ctx.ob("C06.MASK", n, f"mask literal {n.value!r} is 3 characters", True)
-    ctx.floor("C06.MASK", 35, "mask literals and table rows")
+    _mask_literals(ctx, p)
 
 
 def rule_lit(ctx):
